@@ -21,7 +21,8 @@ CHECKS = {
     ),
     "C14": dict(
         level="proof",
-        campaigns=[dict(engine="natconn", n=n(2000, 40000)), dict(engine="udp", n=n(100, 2000), netns=True)],
+        campaigns=[dict(engine="natconn", n=n(2000, 40000)), dict(engine="udp", n=n(100, 2000), netns=True),
+                   dict(engine="natlife", n=n(16, 300), netns=True, args={"life": 1})],
         trusted_base=UDP_TB + ["model Model/NatConn.lean of natconn.onWrite/onRead tied by the `natconn` campaign through the verif hook service/verif_export.go"],
         assumptions=UDP_AS + ["real-time bounds (teardown 'within bounded time', 'promptly') are observed by the campaigns, not proved: the model has a logical clock"],
     ),
@@ -37,7 +38,7 @@ CHECKS = {
     ),
     "C05": dict(
         level="proof",
-        campaigns=[dict(engine="ip", n=n(100000, 5000000))],
+        campaigns=[dict(engine="ip", n=n(100000, 5000000)), dict(engine="udp", n=n(150, 3000), netns=True)],
         trusted_base=["model Model/IP.lean of net.IP predicates (Go toolchain) and net/private_net.go, tied by the `ip` differential campaign",
                       "Gen/PrivateNets.lean regenerated from the CIDR literals of net/private_net.go"],
         assumptions=["hostname resolution is an oracle (cannot be exercised offline): the theorems quantify over every resolver answer",
